@@ -88,4 +88,28 @@ theorem undeclared_required_reported (c : HapFormat.Classes) (lines : List HapFo
 example : HapFormat.missing ⟨fun t => match t with | .H => [("beta", ".2f", "x")] | .R => [("beta", ".2f", "x")] | .V => []⟩
     [["#H", "beta", ".2f", "x"]] = [(.R, "beta")] := by decide
 
+/-- the same on the strings themselves: a file whose version string has another major number, or a larger minor number, than
+    the reader's is reported whatever the numbers' lengths (`0.10.0` against `0.2.0`: numbers, not texts, are compared) -/
+theorem version_string_reported (o e : String) (vo ve : Nat × Nat × Nat)
+    (ho : HapVersion.parse o = some vo) (he : HapVersion.parse e = some ve) :
+    HapVersion.checkStr o e = some .unsupported ↔ (vo.1 ≠ ve.1 ∨ vo.2.1 > ve.2.1) := by
+  unfold HapVersion.checkStr
+  simp only [ho, he, Option.bind_eq_bind, Option.bind_some, Option.pure_def, Option.some.injEq]
+  unfold HapVersion.check
+  constructor
+  · intro h
+    by_cases hn : (vo.1 ≠ ve.1 ∨ vo.2.1 > ve.2.1)
+    · exact hn
+    · rw [if_neg hn] at h
+      split at h
+      · cases h
+      · split at h <;> cases h
+  · intro h
+    rw [if_pos h]
+
+/-- non-vacuity at the level of the numbers (string operations do not reduce in the kernel; the strings `0.10.0`, `0.1.9`, `10.2.0`
+    … are run through `checkStr` by the correspondence check on every run) -/
+example : HapVersion.check (0, 10, 0) (0, 2, 0) = .unsupported ∧ HapVersion.check (0, 1, 9) (0, 2, 0) = .outdated ∧
+    HapVersion.check (0, 2, 0) (0, 2, 1) = .patched ∧ HapVersion.check (10, 2, 0) (0, 2, 0) = .unsupported := by decide
+
 end C06
